@@ -121,6 +121,10 @@ func CorpusTypes(seed int64, tier string) []*Case {
 			cfg.Args = []string{it.Name}
 			cases = append(cases, &Case{Origin: "types:" + sh.Name, Src: src, Cfg: cfg, Judge: baseJudge, Repeat: 2})
 		}
+		if strings.HasPrefix(sh.Name, "Kw") {
+			// without a formatter nothing stands between an invalid identifier and the output
+			cases = append(cases, &Case{Origin: "types:" + sh.Name + ":noop", Src: src, Cfg: Cfg{Dest: "implicit", Fmt: "noop", Args: []string{it.Name}}, Judge: []string{"C01", "C12"}})
+		}
 		if sh.Name == "Local" || sh.Name == "SliceLocal" {
 			// source package named like a dependency that is first mentioned by a LATER
 			// method than the one using the source type
